@@ -279,7 +279,7 @@ func (ex *Exec) atReturn(st *State, fr *Frame, fc *FuncContract, rets []Value) {
 	}
 	ex.frameCheck(st, fr, fc, env)
 	if fc != nil && len(fc.Own) > 0 {
-		ex.ownCheckAtReturn(st, fr, fc, rets)
+		ex.ownCheck(st, fr, rets, "")
 	}
 }
 
@@ -508,7 +508,7 @@ func diffValues(a, b Value, path []PathEl, out *[]diff) {
 
 // ---------- ownership ----------
 
-func (ex *Exec) ownCheckAtReturn(st *State, fr *Frame, fc *FuncContract, rets []Value) {
+func (ex *Exec) ownCheck(st *State, fr *Frame, rets []Value, suffix string) {
 	// roots: every parameter that is not a byte slice, plus results
 	inputs := map[int]bool{}
 	for id, o := range st.heap {
@@ -578,9 +578,9 @@ func (ex *Exec) ownCheckAtReturn(st *State, fr *Frame, fc *FuncContract, rets []
 		walk(r, fmt.Sprintf("result%d", i))
 	}
 	if len(bad) == 0 {
-		ex.emit(st, fr, "own/noalias", "", "result shares no memory with the input buffer", True, []string{"C12"}, fr.fn.Pos())
+		ex.emit(st, fr, "own/noalias"+suffix, "", "result shares no memory with the input buffer", True, []string{"C12"}, fr.fn.Pos())
 	} else {
 		sort.Strings(bad)
-		ex.emit(st, fr, "own/noalias", "", "result shares no memory with the input buffer (aliased at "+strings.Join(bad, ", ")+")", False, []string{"C12"}, fr.fn.Pos())
+		ex.emit(st, fr, "own/noalias"+suffix, "", "result shares no memory with the input buffer (aliased at "+strings.Join(bad, ", ")+")", False, []string{"C12"}, fr.fn.Pos())
 	}
 }
